@@ -22,6 +22,9 @@ CHECKS = {
  "C04": ("fault_enumeration", "runtime monitoring: the C03 fault campaigns judged by a culprit oracle with simulator ground truth, plus reflective state-level deviations of a CMP presigner in the offline, full and online variants",
          "Culprit soundness (named parties are the corrupted one; relayed aborts name a real notice sender; no self-blame; verification failures attributed to the sender) over the whole catalogue, and identifiable abort (every honest signer ends with culprits=[cheater]) for wrong chi / gamma / delta / sigma contributions whose individual proofs all pass.",
          "State is altered by reflection between deliveries; abort notices are suppressed in identifiable-abort runs.", "5/C04"),
+ "C05": ("fault_enumeration", "runtime monitoring in sacrificial child processes: hostile messages substituted into real sessions at the handler boundary (L1), high-throughput round-level feeding with boundary re-execution (L2), decoder fuzzing; per-call CPU/allocation meters, RLIMIT_AS, journalled inputs for crash attribution",
+         "Every field path of every message type of every protocol x structural malformations, header malformations and random corruptions, early (possibly queued) and late (last awaited) timing; oracles per Accept call: no panic or process death, CPU <= 60 s, allocation <= 1 GiB, no blocked call, legal post-state. CMP breadth comes from L2 (thousands of payloads on the victim's round object) whose hits only count when they reproduce at the boundary.",
+         "Per-call meters are process-wide (one case at a time per child); a watchdog without provable block/overrun is inconclusive; pool is nil in the sessions (worker panics are covered by the pool fix and C18).", "5/C05"),
  "C06": ("fault_enumeration", "runtime monitoring: shielded twin handlers (two real handlers with one identity, forked randomness at round k) as the equivocator, every bipartition of the honest parties, offline view-consistency checker over the simulator log",
          "For every MultiHandler protocol, non-final broadcast round k, equivocator position and bipartition (sampled for the expensive ones), the two groups receive individually valid but different payloads; twins are shielded so that only the honest handlers' echo comparison can stop the session; two honest finishers with different recorded views are the violation. A wire-only one-byte flip is the weak variant.",
          "Twins coincide up to round k-1 through identical deterministic randomness streams; honest-to-honest traffic is never modified.", "5/C06"),
